@@ -675,6 +675,14 @@ pub fn exec_one(req: &Value) -> Value {
     finish(req, t0, w0, res)
 }
 
+/// Requests may carry metadata nested deeper than serde_json's default limit.
+fn parse_req(line: &str) -> Result<Value, serde_json::Error> {
+    use serde_json::Deserializer;
+    let mut de = Deserializer::from_str(line);
+    de.disable_recursion_limit();
+    serde::Deserialize::deserialize(&mut de)
+}
+
 fn main() {
     std::panic::set_hook(Box::new(|info| {
         let loc = info
@@ -715,7 +723,7 @@ fn main() {
             if line.trim().is_empty() {
                 continue;
             }
-            let req: Value = serde_json::from_str(&line).expect("script json");
+            let req: Value = parse_req(&line).expect("script json");
             marker("begin");
             let resp = exec_one(&req);
             marker("end");
@@ -725,7 +733,7 @@ fn main() {
         return;
     }
     if args.len() >= 3 && args[1] == "op" {
-        let req: Value = serde_json::from_str(&args[2]).expect("op json");
+        let req: Value = parse_req(&args[2]).expect("op json");
         marker("begin");
         let resp = exec_one(&req);
         marker("end");
@@ -744,7 +752,7 @@ fn main() {
         if line.trim().is_empty() {
             continue;
         }
-        let req: Value = match serde_json::from_str(&line) {
+        let req: Value = match parse_req(&line) {
             Ok(v) => v,
             Err(e) => {
                 println!("{}", json!({"harness_error": e.to_string()}));
